@@ -18,6 +18,14 @@ def unhx(s: str) -> bytes:
     return b"" if s in ("-", "") else bytes.fromhex(s)
 
 
+class CaseTimeout(BaseException):
+    """impl() exceeded PropertyCheck.case_timeout seconds"""
+
+
+def _alarm(signum, frame):
+    raise CaseTimeout()
+
+
 class Skip(Exception):
     """raised by impl()/model_lines() when a generated case is outside the modelled domain"""
 
@@ -41,6 +49,7 @@ class PropertyCheck:
     assumptions = []
     parallel = False               # evaluate impl()/oracle() in a process pool (thorough tier)
     has_model = True               # False: no driver tie (table-only / oracle-only properties)
+    case_timeout = 60              # seconds per impl() call (SIGALRM); see on_timeout
     batch_model = True
 
     # ---- to override -------------------------------------------------------------------------
@@ -95,6 +104,11 @@ class PropertyCheck:
 
     def describe(self, case, obs):
         return {"case": case, "impl": obs}
+
+    def on_timeout(self, case):
+        """impl() did not return within case_timeout: failures (a property about termination lists one here);
+        [] = the runner could not drive the code (broken tie, decided by the failing-input search)"""
+        return []
 
     # ---- helpers -----------------------------------------------------------------------------
     def corpus(self):
@@ -159,10 +173,20 @@ _CHECK = None
 
 def _eval_case(case):
     chk = _CHECK
+    import signal
     try:
-        obs = chk.impl(case)
+        signal.signal(signal.SIGALRM, _alarm); signal.setitimer(signal.ITIMER_REAL, chk.case_timeout)
+        try:
+            obs = chk.impl(case)
+        finally:
+            signal.setitimer(signal.ITIMER_REAL, 0)
     except Skip:
         return None
+    except CaseTimeout:
+        fails = chk.on_timeout(case)
+        if fails:
+            return ({"__timeout__": chk.case_timeout}, fails, None, ["impl-timeout"], None)
+        return ({"__exc__": f"timeout after {chk.case_timeout}s", "tb": ""}, [], None, ["impl-timeout"], None)
     except Exception as e:   # the harness could not drive the code: a broken tie, decided by the failing-input search
         return ({"__exc__": f"{type(e).__name__}: {e}", "tb": traceback.format_exc()[-1500:]}, [], None, ["impl-raised"], None)
     fails = chk.oracle(case, obs)
@@ -236,7 +260,13 @@ class Runner:
             res = []
             for r in pool.map(_eval_chunk, chunks): res.extend(r)
             return res
-        return [_eval_case(c) for c in cases]
+        res, bad = [], 0
+        for c in cases:
+            r = _eval_case(c); res.append(r)
+            if r is not None and r[1]:
+                bad += 1
+                if bad >= 3: break          # enough failing inputs: stop early (zip() below truncates)
+        return res
 
     def run(self):
         global _CHECK
@@ -458,14 +488,13 @@ class Runner:
         """DESIGN §2.4: property oracle on the implementation over (a) the disagreeing cases,
         (b) their neighbourhood, (c) the small-scope enumerator, (d) a fresh random budget."""
         chk = self.chk
-        t0 = time.time(); limit = 240 if self.tier == "quick" else 1200
+        t0 = time.time(); limit = 60 if self.tier == "quick" else 900
 
         def test(c):
-            try:
-                o = chk.impl(c)
-            except Skip:
-                return None
-            fs = [x for x in chk.oracle(c, o) if not (chk.known(c, o, x) in self.known_db)]
+            r = _eval_case(c)
+            if r is None or (isinstance(r[0], dict) and "__exc__" in r[0]): return None
+            o = r[0]
+            fs = [x for x in r[1] if not (chk.known(c, o, x) in self.known_db)]
             return (c, o, fs[0]) if fs else None
 
         def sweep(it):
